@@ -5,6 +5,7 @@
   undocumented raw exception") is decided by the correspondence check on the malformed stream (see DESIGN.md); the
   theorems `raw_needs_catch_all` / `uncaught_collides` say why it matters for the exit status.
 -/
+import PyshaclProofs.RawProofs
 import PyshaclModel.Cli
 namespace Pyshacl.C16
 open Pyshacl.Cli
@@ -67,5 +68,17 @@ theorem uncaught_collides (c : String) (h : handlerFor c = none) : exitStatus (.
 /-- NotImplementedError is a RuntimeError: its clause must come before the RuntimeError clause (it does) -/
 theorem not_implemented_before_runtime :
     (CliTable.handlers.map (·.1)).idxOf "NotImplementedError" < (CliTable.handlers.map (·.1)).idxOf "RuntimeError" := by decide
+
+/-- **API clause, model level (`…_partial`)**: a constraint component of the Core / SHACL-SPARQL families (everything but the
+    advanced-mode sh:expression) lets an exception outside the documented family through only if a nested shape
+    evaluation raised it, or it is one of `rawAllowed`: `ValueError` (a looping rdf:List — rejected at load time by
+    `hasLoopingList`), `AttributeError` (a sibling qualified value shape missing from the shape cache — the cache builders
+    gather them since fix 9a07337) and the oracle-table-miss markers of the harness.  Every other failure is
+    ShapeLoadError / ConstraintLoadError / ReportableRuntimeError / ValidationFailure / NotImplementedError.
+    Partial: path evaluation, target resolution and advanced mode are covered by the enumeration on the real code only. -/
+theorem component_raw_classes_partial (e : Env) (rec : Rec) (s : Shape) (k : CKind) (fv : FV) (path : List PathEntry)
+    (hk : k ≠ .expression) (cls : String) (h : evalConstraint e rec s k fv path = .error (.raw cls)) :
+    cls ∈ rawAllowed ∨ ∃ s' v p, rec s' v p = .error (.raw cls) :=
+  nnr_evalConstraint e rec s k fv path hk cls h
 
 end Pyshacl.C16
